@@ -30,6 +30,7 @@ Ghost0 == [drained |-> <<>>,      \* every line handed out through Changes.scrol
            resized |-> FALSE,     \* the session resized
            snap |-> NoLine,       \* primary buffer at the moment of entering the alternate screen (C16)
            snapResized |-> FALSE, \* a resize happened during the excursion
+           entry |-> NoLine,      \* cursor at the moment of entering through ?1049h
            dclass |-> {},         \* known-finding classes the state was in when dump() was taken (C11)
            lastText |-> <<>>,     \* the last text() output logged for this slot
            carry |-> <<>>]        \* TextUnwrapper carry of a collector slot
@@ -66,6 +67,10 @@ AltMsgs(ll, gOld, gNew, prev, fns, cur) ==
   \o (IF prev.t.alt /\ ~cur.t.alt /\ Len(fns) = 1 /\ IsSwitch(fns[1]) /\ gOld.snap # NoLine /\ ~gOld.snapResized
          /\ ~SamePrimary(cur.t.buf.lines, gOld.snap.c, cur.t.lim)
       THEN <<Msg("FAIL C16", ll, "primary screen differs after leaving the alternate screen")>> ELSE <<>>)
+  \o (IF prev.t.alt /\ ~cur.t.alt /\ Len(fns) = 1 /\ fns[1].f = "Decrst" /\ fns[1].a = <<1049>>
+         /\ gOld.entry # NoLine /\ ~gOld.snapResized
+         /\ <<cur.t.col, cur.t.row, cur.t.pw>> # <<gOld.entry.c[1], gOld.entry.c[2], FALSE>>
+      THEN <<Msg("FAIL C16", ll, "?1049l does not put the cursor back where ?1049h found it")>> ELSE <<>>)
 AltEntryMsgs(ll, prev, fns, cur) ==
   IF ~prev.t.alt /\ cur.t.alt /\ Len(fns) = 1
   THEN (IF \A i \in 1..Len(cur.t.buf.lines) : \A k \in 1..cur.t.cols : cur.t.buf.lines[i].c[k] = BlankCell(prev.t.pen)
@@ -81,7 +86,10 @@ GhostStep(g, prev, fns, cur, dr) ==
                !.ris = @ \/ hasRis,
                !.snap = IF hasRis \/ leaves \/ murky THEN NoLine
                         ELSE IF enters THEN [c |-> prev.t.buf.lines, w |-> FALSE] ELSE @,
-               !.snapResized = IF enters THEN FALSE ELSE @]
+               !.snapResized = IF enters THEN FALSE ELSE @,
+               !.entry = IF hasRis \/ leaves \/ murky THEN NoLine
+                         ELSE IF enters /\ Len(fns) = 1 /\ fns[1] = FS("Decset", <<1049>>)
+                              THEN [c |-> <<Min2(prev.t.col, prev.t.cols - 1), prev.t.row>>, w |-> FALSE] ELSE @]
 
 (* Who is to blame for a step that is not a step of (S)?  The properties that    *)
 (* own the executed functions - unless the divergence is confined to the          *)
